@@ -180,4 +180,111 @@ theorem redLoop_ok (f : α → κ) (groups : Bool) (src : List α) :
     ⟨by simp [keysOf], by intro k; simp [lookup, occ]⟩
   simpa using this
 
+theorem mem_keysOf_iff_lookup (k : κ) (l : List (κ × β)) : k ∈ keysOf l ↔ lookup k l ≠ none := by
+  rw [Ne, lookup_eq_none_iff]; simp
+
+theorem occ_length_eq_countP (f : α → κ) (k : κ) (l : List α) :
+    (occ f k l).length = l.countP (fun x => decide (f x = k)) := by
+  simp [occ, List.countP_eq_length_filter]
+
+/-- every entry of `redundant_groups` is `expect groups (occ k src)` with at least two occurrences -/
+theorem redLoop_entry (f : α → κ) (groups : Bool) (src : List α) :
+    ∀ e ∈ redLoop f groups src [] [], e.2 = expect groups (occ f e.1 src) ∧ 2 ≤ (occ f e.1 src).length := by
+  intro e he
+  obtain ⟨k, g⟩ := e
+  have inv := redLoop_ok f groups src
+  have hl := lookup_of_mem_nodup inv.1 he
+  rw [inv.2 k] at hl
+  by_cases h : 2 ≤ (occ f k src).length
+  · simp only [h, ↓reduceIte, Option.some.injEq] at hl
+    exact ⟨hl.symm, h⟩
+  · simp [h] at hl
+
+theorem redLoop_keys_iff (f : α → κ) (groups : Bool) (src : List α) (k : κ) :
+    k ∈ keysOf (redLoop f groups src [] []) ↔ 2 ≤ src.countP (fun x => decide (f x = k)) := by
+  have inv := redLoop_ok f groups src
+  rw [mem_keysOf_iff_lookup, inv.2 k, occ_length_eq_countP]
+  split <;> simp_all
+
+theorem filterMap_map_keys (f : α → κ) (h : κ × List α → Option α) (l : List (κ × List α))
+    (hl : ∀ e ∈ l, ∃ y, h e = some y ∧ f y = e.1) : (l.filterMap h).map f = keysOf l := by
+  induction l with
+  | nil => simp [keysOf]
+  | cons e es ih =>
+    obtain ⟨y, hy, hfy⟩ := hl e (by simp)
+    rw [List.filterMap_cons_some hy]
+    simp only [List.map_cons, keysOf, hfy]
+    congr 1
+    exact ih (fun e' he' => hl e' (by simp [he']))
+
+theorem occ_mem_key (f : α → κ) (k : κ) (l : List α) : ∀ y ∈ occ f k l, f y = k := by
+  intro y hy
+  simp only [occ, List.mem_filter, decide_eq_true_eq] at hy
+  exact hy.2
+
+theorem redundant_entry_second (f : α → κ) (src : List α) :
+    ∀ e ∈ redLoop f false src [] [], ∃ y, e.2[1]? = some y ∧ f y = e.1 ∧ (occ f e.1 src)[1]? = some y := by
+  intro e he
+  obtain ⟨h1, h2⟩ := redLoop_entry f false src e he
+  have hlt : 1 < (occ f e.1 src).length := by omega
+  refine ⟨(occ f e.1 src)[1], ?_, ?_, ?_⟩
+  · rw [h1]
+    simp only [expect, Bool.false_eq_true, ↓reduceIte]
+    rw [List.getElem?_take]
+    simp [hlt]
+  · exact occ_mem_key f e.1 src _ (List.getElem_mem hlt)
+  · simp [hlt]
+
+theorem redundant_map_keys (f : α → κ) (src : List α) :
+    (redundant f src).map f = keysOf (redLoop f false src [] []) := by
+  unfold redundant
+  apply filterMap_map_keys
+  intro e he
+  obtain ⟨y, h1, h2, _⟩ := redundant_entry_second f src e he
+  exact ⟨y, h1, h2⟩
+
+theorem redundant_keys_iff (f : α → κ) (src : List α) (k : κ) :
+    k ∈ (redundant f src).map f ↔ 2 ≤ src.countP (fun x => decide (f x = k)) := by
+  rw [redundant_map_keys]
+  exact redLoop_keys_iff f false src k
+
+theorem redundant_nodup (f : α → κ) (src : List α) : ((redundant f src).map f).Nodup := by
+  rw [redundant_map_keys]
+  exact (redLoop_ok f false src).1
+
+theorem redundant_second (f : α → κ) (src : List α) :
+    ∀ y ∈ redundant f src, (src.filter (fun x => decide (f x = f y)))[1]? = some y := by
+  intro y hy
+  unfold redundant at hy
+  rw [List.mem_filterMap] at hy
+  obtain ⟨e, he, hy⟩ := hy
+  obtain ⟨y', h1, h2, h3⟩ := redundant_entry_second f src e he
+  rw [h1] at hy
+  cases hy
+  rw [h2]
+  exact h3
+
+theorem redundantGroups_spec (f : α → κ) (src : List α) :
+    (∀ g ∈ redundantGroups f src, ∃ k, g = src.filter (fun x => decide (f x = k)) ∧ 2 ≤ g.length) ∧
+    (∀ k, 2 ≤ src.countP (fun x => decide (f x = k)) →
+      src.filter (fun x => decide (f x = k)) ∈ redundantGroups f src) := by
+  refine ⟨?_, ?_⟩
+  · intro g hg
+    unfold redundantGroups at hg
+    rw [List.mem_map] at hg
+    obtain ⟨e, he, rfl⟩ := hg
+    obtain ⟨h1, h2⟩ := redLoop_entry f true src e he
+    refine ⟨e.1, ?_, ?_⟩
+    · rw [h1]; simp [expect, occ]
+    · rw [h1]; simpa [expect] using h2
+  · intro k hk
+    have inv := redLoop_ok f true src
+    have hl := inv.2 k
+    rw [occ_length_eq_countP] at hl
+    simp only [hk, ↓reduceIte, expect] at hl
+    have := lookup_some_mem hl
+    unfold redundantGroups
+    rw [List.mem_map]
+    exact ⟨_, this, rfl⟩
+
 end C09
